@@ -283,7 +283,7 @@ func runCase(c Case) []ev.Violation {
 		switch {
 		case j < 0:
 			bad("least-conn-non-member", "Select returned %v, %v for %v", e, err, c.EPs)
-		case !domain.EndpointStatus(c.EPs[j].Status).IsRoutable():
+		case !gen.IsRoutable(c.EPs[j].Status):
 			bad("least-conn-non-routable", "Select returned non-routable member %d of %v", j, c.EPs)
 		case ref[j] != min:
 			bad("least-conn-not-minimal", "Select returned member %d with %d in-flight, minimum among routable is %d; gauges %v for %v", j, ref[j], min, ref, c.EPs)
@@ -299,7 +299,7 @@ func runCase(c Case) []ev.Violation {
 					defer wg.Done()
 					for i := 0; i < 50; i++ {
 						e, err := sel.Select(ctx, eps)
-						if err != nil || e == nil || indexOf(eps, e) < 0 || !e.Status.IsRoutable() {
+						if err != nil || e == nil || indexOf(eps, e) < 0 || !gen.IsRoutable(string(e.Status)) {
 							mu.Lock()
 							concBad = fmt.Sprintf("concurrent Select returned %v, %v", e, err)
 							mu.Unlock()
